@@ -484,7 +484,7 @@ L1_RULE = ("generated lookup/store/advance histories (40-200 ops + fill probe, r
            "run on the real engines (GlobalCache / ThreadLocalCache / AsyncGlobalCache) with harness-owned storage and a virtual clock; after every operation the result, the whole store "
            "(keys, values) and the hit/miss counters are compared with the specification model (belief monitor). ")
 
-EXTRAS_RULE = ("EXTRAS: at the start of every l2mon process 18 functions outside the descriptor table (12 that call themselves by name from their own body, 6 that return nothing) are called 40 times each: value = the undecorated recursion's, every argument of an unbounded cache ran its body exactly once however it was reached, a repeat of the previous call runs nothing (FIFO/LRU), listed entries <= limit, no panic, no thread blocking on itself. ")
+EXTRAS_RULE = ("EXTRAS: at the start of every l2mon process 24 functions outside the descriptor table (12 that call themselves by name from their own body, 6 that return nothing, 6 that return Option and do return None for a third of their arguments) are called 40 times each: value = the undecorated recursion's, every argument of an unbounded cache ran its body exactly once however it was reached, a repeat of the previous call runs nothing (FIFO/LRU), listed entries <= limit, no panic, no thread blocking on itself. ")
 L2_RULE = ("MACRO LEVEL: generated multi-cache histories (30-120 operations + closing sweep) over groups of 1-6 functions of a generated corpus of 554 #[cache]/#[cache_async] functions "
            "(attribute presence/values x 10 argument shapes x free fn/&self/&mut self/self x 10 return kinds), calls issued from 1-4 worker threads (serialised), bodies scripted by the harness "
            "(fresh value per execution or deterministic, Ok/Err, payload size, cache_if and invalidate_on verdicts), virtual clock, conditional and group invalidations, stats resets; after every "
